@@ -12,7 +12,30 @@ The abstract token form (read by the extracted model) and the XSD / XML text (re
 produced here from the same dict; this renderer is part of the trusted base of the correspondence."""
 
 XS = "http://www.w3.org/2001/XMLSchema"
-TYPE_NAME = {"s": "xs:string", "t": "xs:token", "i": "xs:integer", "d": "xs:decimal", "D": "xs:date", "q": "xs:QName"}
+TYPE_NAME = {"s": "xs:string", "t": "xs:token", "i": "xs:integer", "d": "xs:decimal", "D": "xs:date", "q": "xs:QName",
+             # further members of the three families, at various derivation depths (built-in and user restrictions)
+             "N": "xs:normalizedString", "C": "xs:NCName", "T": "myToken",
+             "E": "myDecimal", "I": "myInteger", "l": "xs:long", "n": "xs:int", "J": "myInt", "h": "xs:short", "b": "xs:byte",
+             "u": "xs:nonNegativeInteger", "A": "myDate"}
+PARENT = {"s": None, "N": "s", "t": "N", "C": "t", "T": "t",
+          "d": None, "E": "d", "i": "d", "I": "i", "l": "i", "n": "l", "J": "n", "h": "n", "b": "h", "u": "i",
+          "D": None, "A": "D", "q": None}
+USER_TYPES = {"myToken": "xs:token", "myDecimal": "xs:decimal", "myInteger": "xs:integer", "myInt": "xs:int", "myDate": "xs:date"}
+FAMILIES = {"dec": "dEiIlnJhbu", "str": "sNtCT", "date": "DA"}
+
+
+def ancestors(t):
+    out = []
+    while t is not None:
+        out.append(t)
+        t = PARENT[t]
+    return out
+
+
+def derived_types(t):
+    """types properly derived from t (candidates for xsi:type on an element declared with type t)"""
+    return [x for x in PARENT if x != t and t in ancestors(x)]
+
 NSDECL = 'xmlns:p="urn:one" xmlns:q="urn:one" xmlns:r="urn:two"'
 
 POOL = {
@@ -27,6 +50,16 @@ POOL = {
           ["2001-01-02Z", "2001-01-02+00:00"], ["1999-12-31"], ["2004-02-29"]],
     "q": [["p:a", "q:a"], ["r:a"], ["a"], ["p:b", "q:b"], ["r:b"], ["b"]],
 }
+_SMALL_INT = [["1", "+1", "01", "001"], ["2", "+2", "02"], ["0", "-0", "+0", "00"], ["10", "010", "+10"], ["-5", "-05"], ["3"], ["4"]]
+for _t in "lnJhb":
+    POOL[_t] = _SMALL_INT
+POOL["I"] = POOL["i"]
+POOL["u"] = [["1", "+1", "01", "001"], ["2", "+2", "02"], ["0", "+0", "00"], ["10", "010", "+10"], ["3"], ["4"], ["7", "07"]]
+POOL["E"] = POOL["d"]
+POOL["N"] = POOL["s"]
+POOL["T"] = POOL["t"]
+POOL["C"] = [["a", " a", "a ", "  a  "], ["b", " b"], ["A"], ["c"], ["d"], ["e", " e "]]
+POOL["A"] = POOL["D"]
 
 
 def hexs(s):
@@ -41,6 +74,8 @@ def esc(s):
 def render_xsd(case):
     nl, na, nc = len(case["ltypes"]), len(case["atypes"]), case["nc"]
     o = ['<?xml version="1.0"?>\n<xs:schema xmlns:xs="%s" %s>\n' % (XS, NSDECL)]
+    for un, ub in sorted(USER_TYPES.items()):
+        o.append('<xs:simpleType name="%s"><xs:restriction base="%s"/></xs:simpleType>\n' % (un, ub))
     attrs = "".join('<xs:attribute name="t%d" type="%s"/>' % (i, TYPE_NAME[t]) for i, t in enumerate(case["atypes"]))
     o.append('<xs:complexType name="CT"><xs:choice minOccurs="0" maxOccurs="unbounded">')
     for i in range(nc):
@@ -62,6 +97,9 @@ def render_xsd(case):
         o.append('</xs:element>\n')
     for i in range(nl):
         nil = ' nillable="true"' if case["lnil"][i] else ""
+        if case.get("lplain") and case["lplain"][i]:      # plain simple-typed element (xsi:type to a derived simple type allowed)
+            o.append('<xs:element name="l%d"%s type="%s"/>\n' % (i, nil, TYPE_NAME[case["ltypes"][i]]))
+            continue
         o.append('<xs:element name="l%d"%s><xs:complexType><xs:simpleContent><xs:extension base="%s">%s'
                  '</xs:extension></xs:simpleContent></xs:complexType></xs:element>\n'
                  % (i, nil, TYPE_NAME[case["ltypes"][i]], attrs))
@@ -73,11 +111,13 @@ def render_xml(case):
     o = ['<?xml version="1.0"?>\n']
 
     def go(n, root):
-        kind, idx, attrs, body = n
+        kind, idx, attrs, body = n[:4]
         name = "%s%d" % (kind, idx)
         o.append("<" + name)
+        if len(n) > 4 and n[4]:
+            o.append(' xsi:type="%s"' % TYPE_NAME[n[4]])
         if root:
-            o.append(' xmlns:xsi="http://www.w3.org/2001/XMLSchema-instance" %s @@L@@' % NSDECL)
+            o.append(' xmlns:xsi="http://www.w3.org/2001/XMLSchema-instance" xmlns:xs="%s" %s @@L@@' % (XS, NSDECL))
         for a in sorted(attrs):
             o.append(' t%d="%s"' % (a, esc(attrs[a])))
         if kind == "l":
@@ -108,8 +148,10 @@ def render_abstract(case):
     t.append("TREE")
 
     def go(n):
-        kind, idx, attrs, body = n
+        kind, idx, attrs, body = n[:4]
         t.append("(%s%d" % (kind, idx))
+        if len(n) > 4 and n[4]:
+            t.append("~" + n[4])
         for a in sorted(attrs):
             t.append("@%d=%s" % (a, hexs(attrs[a])))
         if kind == "l":
@@ -254,9 +296,15 @@ def gen_record_tree(rng, case, size):
 
     def leaf(i):
         budget[0] -= 1
+        ty = case["ltypes"][i]
+        plain = bool(case.get("lplain")) and case["lplain"][i]
         if case["lnil"][i] and rng.random() < 0.3:
-            return ["l", i, gen_attrs(rng, case, 0.3), None]
-        return ["l", i, gen_attrs(rng, case, 0.3), pick_value(rng, case["ltypes"][i])]
+            return ["l", i, {} if plain else gen_attrs(rng, case, 0.3), None]
+        der = derived_types(ty)
+        if plain and der and rng.random() < case.get("_xsitype", 0.0):
+            ov = rng.choice(der)                      # xsi:type: a type derived from the declared one
+            return ["l", i, {}, pick_value(rng, ov), ov]
+        return ["l", i, {} if plain else gen_attrs(rng, case, 0.3), pick_value(rng, ty)]
 
     def cont(i, depth):
         budget[0] -= 1
@@ -326,6 +374,13 @@ def gen_case2(rng, size=14, allow_desc=True):
     if rng.random() < 0.15:    # integer and decimal fields side by side, token and string
         case["ltypes"] = list(rng.choice(["idi", "std", "tsq", "ddi"]))
         case["atypes"] = list(rng.choice(["idi", "tsd", "iid", "sts"]))
+    if rng.random() < 0.4:     # one primitive family, members at different derivation depths (hash vs equals)
+        fam = FAMILIES[rng.choice(["dec", "dec", "dec", "str", "date"])]
+        case["ltypes"] = [rng.choice(fam) for _ in range(nl)]
+        case["atypes"] = [rng.choice(fam) for _ in range(na)]
+        case["_xsitype"] = rng.choice([0.0, 0.2, 0.4])
+        if case["_xsitype"]:
+            case["lplain"] = [rng.random() < 0.7 for _ in range(nl)]
     sels = [s for s in SELECTORS if allow_desc or ".//" not in s]
     nid = 0
     for _ in range(rng.choice([1, 1, 2, 2, 3])):
@@ -352,4 +407,5 @@ def gen_case2(rng, size=14, allow_desc=True):
     case["_nest"] = rng.random() < 0.12      # the root's name (which carries most constraints) also occurs nested
     case["tree"] = gen_record_tree(rng, case, size)
     del case["_nest"]
+    case.pop("_xsitype", None)
     return case
